@@ -135,10 +135,16 @@ package db
 // resolveDirty: when dirty, re-read page 1, validate it (parseHeader must accept these very bytes),
 // adopt its page size and counters, drop the page cache when the change counter moved and the schema
 // cache when the schema cookie moved.
+// rd_calls counts header re-validations (calls of resolveDirty). master must re-validate before it hands
+// out anything, cached or not (C08): a cached schema from an earlier transaction is only good if the
+// schema cookie of the header read in THIS transaction still matches.
+//@ ghost rd_calls bv64
 //@ func (*db.Database).resolveDirty
+//@   ghost-exit rd_calls = rd_calls + 1
+//@   ensures [counted] rd_calls == old(rd_calls) + 1
 //@   props C08 C15 C09
 //@   opt no-type-invariant=db.Database
-//@   modifies * -M:S_db_KeyCol -M:S_sqlittle_columnIndex hdr_valid hdr_ps hdr_cookie jr_pos peer_state
+//@   modifies * -M:S_db_KeyCol -M:S_sqlittle_columnIndex hdr_valid hdr_ps hdr_cookie jr_pos peer_state rd_calls
 //@   requires db != nil && db.l != nil && db.btreeCache != nil && db.btreeCache.elem != nil
 //@   requires db.header != nil ==> CACHE_OK(db) && legal_ps(db.header.PageSize)
 //@   requires db.header == nil ==> db.dirty && (forall q int :: !has(db.btreeCache.elem, q))
@@ -156,6 +162,7 @@ package db
 //@   ensures [schema] err == nil && old(db.dirty) && old(db.header) != nil && old(db.header.SchemaCookie) != db.header.SchemaCookie ==> db.objectCache == nil
 
 //@ func (*db.Database).openPage
+//@   ghost-exit rd_calls = old(rd_calls)
 //@   props C08 C15 C01 C02 C12
 //@   modifies * -M:S_db_KeyCol -M:S_sqlittle_columnIndex hdr_valid hdr_ps hdr_cookie jr_pos peer_state
 //@   requires db != nil
@@ -198,6 +205,8 @@ package db
 //@   ghost-entry halt = false
 //@   ghost-entry searching = false
 //@   ensures [normalised] MASTER_OK(r0)
+//@   ensures-before-exit [revalidated] err == nil ==> rd_calls == old(rd_calls) + 1
+//@   ghost-exit rd_calls = old(rd_calls)
 //@   ensures [cachederr] err != nil && db.objectCache != nil && fresh(db.objectCache) ==> db.objectCache.err != nil
 //@   ghost-exit cur_tree = old(cur_tree)
 //@   ghost-exit pos = old(pos)
@@ -240,6 +249,7 @@ package db
 //@   requires db != nil
 
 //@ func db.newDatabase
+//@   ghost-exit rd_calls = old(rd_calls)
 //@   props C08 C15 C05
 //@   modifies * -M:S_db_KeyCol -M:S_sqlittle_columnIndex hdr_valid hdr_ps hdr_cookie jr_pos peer_state
 //@   requires l != nil
